@@ -723,7 +723,7 @@ def canon_key(k, opt):
     return k.replace("-", "_") if not avg else k
 
 
-def options_for(rng, case, ci, fam, tier):
+def options_for(rng, case, ci, fam, tier, inexact=()):
     """the report invocations made on one directory; `fam` = the directories it may be diffed against
     (same symbol table)"""
     quick = tier == "quick"
@@ -776,8 +776,11 @@ def options_for(rng, case, ci, fam, tier):
     # (figures that are not exactly printable / beyond 2^26 are left to the absolute policy: cmp_pcnt computes in double)
     if case.cat not in ("big", "lost", "inv"):
         opts.append({"diff": ci, "pct": True, "full": rng.random() < 0.5, "fields": rng.choice(["all", None])})
+        # the OTHER directory must be exactly printable too (this choice draws nothing from rng: the job list of
+        # a seed stays what it was wherever `other` was already exact)
+        pct_other = other if other not in inexact else next((k for k in others if k not in inexact), ci)
         for j in range(2 if quick else 5):
-            o = {"diff": other, "pct": True, "sort": SORTKEYS[(ci + 5 * j) % len(SORTKEYS)],
+            o = {"diff": pct_other, "pct": True, "sort": SORTKEYS[(ci + 5 * j) % len(SORTKEYS)],
                  "fields": rng.choice(["all", "all", "total,self,call"]), "column": rng.choice([None, None, 2, 0, 1])}
             if rng.random() < 0.35:
                 o["full"] = True
@@ -917,12 +920,13 @@ def run(ctx):
         c.write(d)
         dirs.append(d)
 
+    inexact = {i for i, c in enumerate(cases) if c.cat in ("big", "lost", "inv")}
     fam_plain = [i for i, c in enumerate(cases) if c.tab is None]
     fam_named = [i for i, c in enumerate(cases) if c.tab is not None and not c.own_table]
     jobs = []       # (case index, opt)
     for ci, c in enumerate(cases):
         fam = fam_plain if c.tab is None else [ci] if c.own_table else fam_named
-        for o in options_for(rng, c, ci, fam, ctx.tier):
+        for o in options_for(rng, c, ci, fam, ctx.tier, inexact):
             jobs.append((ci, o))
 
     def runjob(j):
